@@ -173,9 +173,16 @@ func TestVerif_C20(t *testing.T) {
 		n := rng.Range(10, 10000)
 		nm := rng.Range(1, 4)
 		steps := make([]c20Step, n)
+		longGaps := 0
 		for i := range steps {
 			var d time.Duration
-			switch rng.Intn(6) {
+			switch rng.Intn(7) {
+			case 6:
+				// long quiet periods: elapsed times around 2^31 and 2^32 ms (24.9 and 49.7 days)
+				// and beyond, where a narrowed elapsed-time computation wraps
+				ms := time.Millisecond
+				d = []time.Duration{1<<31*ms - ms, 1 << 31 * ms, 1<<31*ms + ms, 1<<31*ms + 30*time.Second, 1 << 32 * ms, 1<<32*ms + 30*time.Second, 25 * 24 * time.Hour, 60 * 24 * time.Hour, 3 * 365 * 24 * time.Hour}[rng.Intn(9)]
+				longGaps++
 			case 0:
 				d = 0
 			case 1:
@@ -204,6 +211,7 @@ func TestVerif_C20(t *testing.T) {
 			c.Count("messages", int64(n))
 			c.Count("printed", int64(p))
 			c.Count("suppressed", int64(sp))
+			c.Count("quiet_periods_of_weeks", int64(longGaps))
 			if sp > 0 {
 				c.Nontrivial(vNewHash().U64(uint64(myIdx)).Int(n).Int(p).Sum())
 			}
